@@ -537,7 +537,7 @@ where
             pos.into()
         };
 
-        let progress = Progress {
+        let mut progress = Progress {
             draw: self.draw_count,
             chain: self.chain,
             diverging: info.diverging,
@@ -563,6 +563,8 @@ where
             // Refresh the collector for the next draw.
             self.collector = self.adapt.new_collector(math);
         }
+        // The tuning flag is only known after `adapt` has seen this draw.
+        progress.tuning = self.adapt.is_tuning();
 
         self.draw_count += 1;
         self.state = state;
